@@ -98,7 +98,14 @@ func (h *NtfnsHandler) Start() error {
 	}
 
 	curHeight := syncHeight + 1
-	if !hasReadyWallet && indexHeight > 2000 {
+	// skipping ahead is only sound while our tip is still on the node's chain: after a
+	// reorganisation below it, the records of the abandoned branch (written for wallets that
+	// are being imported) must be rolled back first, which the regular loop below does.
+	tipOnChain := false
+	if sha, err := h.walletMgr.chainFetcher.FetchBlockShaByHeight(syncHeight); err == nil && sha != nil {
+		tipOnChain = *sha == h.bestBlock.Hash
+	}
+	if !hasReadyWallet && indexHeight > 2000 && tipOnChain {
 		for ; curHeight < indexHeight-2000; curHeight++ {
 			sha, err := h.walletMgr.chainFetcher.FetchBlockShaByHeight(curHeight)
 			if err != nil {
